@@ -1067,3 +1067,302 @@ Proof.
          else recv s) by reflexivity.
       apply dir_emit_rx; assumption.
 Qed.
+
+(** ** the whole system *)
+
+Definition sysinv (c : cfg) (s : sys) (p : pstate) : Prop :=
+  sysinv2 (epA s) (epB s) (chAB s) (chBA s) (w_ab p) (w_ba p) (addrB c) (addrA c) /\
+  f_ab p = nlen (chAB s) /\ f_ba p = nlen (chBA s).
+
+Lemma win_ok_inv me peer co ci qm qp pa ma :
+  sysinv2 me peer co ci qm qp pa ma -> win_ok (nlen co) (snap_of me) (snap_of peer) = true.
+Proof.
+  intros (Hme & Hpeer & Hd1 & _).
+  destruct Hd1 as (? & ? & ? & _ & _ & _ & _ & _ & _ & _ & _ & _ & _ & _ & _ & _ & Hwin & Hlev & Hsw & _).
+  destruct Hpeer as ((_ & (Hsum & _) & _) & _ & _ & Hswp & _).
+  unfold win_ok, snap_of. cbn [n_rlevel n_rack n_slevel n_swin]. rewrite Hsw. rewrite Hswp in Hsum.
+  lia.
+Qed.
+
+Lemma data_head (b : bytes) (c : list bytes) :
+  Forall (seg_ok m) (b :: c) -> is_data_seg b = true.
+Proof. intro H. apply seg_ok_data. exact (Forall_inv H). Qed.
+
+Lemma sysinv_chan_ok c s p :
+  sysinv c s p -> Forall (seg_ok m) (chAB s) /\ Forall (seg_ok m) (chBA s).
+Proof.
+  intros ((_ & _ & Hd1 & Hd2) & _).
+  destruct Hd1 as (? & ? & ? & _ & _ & _ & _ & _ & _ & _ & _ & _ & _ & H1 & _).
+  destruct Hd2 as (? & ? & ? & _ & _ & _ & _ & _ & _ & _ & _ & _ & _ & H2 & _).
+  auto.
+Qed.
+
+(** one step of the system, judged by the monitor *)
+Lemma sys_step_inv c s p o :
+  sysinv c s p ->
+  let s' := fst (sys_step c s o) in
+  let r := snd (sys_step c s o) in
+  let hd := match o with
+            | SDeliver SB => match chAB s with b :: _ => is_data_seg b | [] => false end
+            | SDeliver SA => match chBA s with b :: _ => is_data_seg b | [] => false end
+            | _ => false
+            end in
+  exists p', pmon_step p o r hd = Some p' /\ sysinv c s' p' /\
+    chAB s' = match o, r with
+              | SPoll SA _, RBytes (x :: l) => chAB s ++ [x :: l]
+              | SDeliver SB, _ => tl (chAB s)
+              | _, _ => chAB s
+              end /\
+    chBA s' = match o, r with
+              | SPoll SB _, RBytes (x :: l) => chBA s ++ [x :: l]
+              | SDeliver SA, _ => tl (chBA s)
+              | _, _ => chBA s
+              end /\
+    match o, r with
+    | SPoll _ _, RBytes (x :: l) => is_data_seg (x :: l) = true
+    | _, _ => True
+    end.
+Proof.
+  intros (H2 & Hfa & Hfb). pose proof (sysinv2_sym _ _ _ _ _ _ _ _ H2) as H2'.
+  destruct s as [A B cab cba]. destruct p as [wab wba fab fba].
+  cbn [epA epB chAB chBA w_ab w_ba f_ab f_ba] in *.
+  destruct o as [x d|x t|x|x]; destruct x; cbv zeta; cbn [sys_step ep set_ep ch_to set_ch_to other gatt_of addr_of
+    epA epB chAB chBA].
+  - (* A submits *)
+    destruct (v_submit _ _ _ _ _ _ _ _ d H2) as [(Er & Hinv)|[(Er & Eme)|((cc & Er) & Eme & Ebad)]];
+      destruct (step A (OSend d (addrB c))) as [i r]; cbn [fst snd] in *; subst r.
+    + eexists. split; [reflexivity|]. cbn [fst snd chAB chBA]. split; [|cbn [fst snd chAB chBA tl]; auto].
+      split; [exact Hinv|]. cbn [fst snd f_ab f_ba w_ab w_ba chAB chBA set_ch_to epA epB tl]. auto.
+    + subst i. eexists. split; [reflexivity|]. cbn [fst snd chAB chBA]. split; [|cbn [fst snd chAB chBA tl]; auto]. split; [exact H2|auto].
+    + subst i. eexists. split; [cbn [fst snd pmon_step is_bad]; rewrite Ebad; reflexivity|].
+      cbn [fst snd chAB chBA]. split; [|cbn [fst snd chAB chBA tl]; auto]. split; [exact H2|auto].
+  - (* B submits *)
+    destruct (v_submit _ _ _ _ _ _ _ _ d H2') as [(Er & Hinv)|[(Er & Eme)|((cc & Er) & Eme & Ebad)]];
+      destruct (step B (OSend d (addrA c))) as [i r]; cbn [fst snd] in *; subst r.
+    + eexists. split; [reflexivity|]. cbn [fst snd chAB chBA]. split; [|cbn [fst snd chAB chBA tl]; auto].
+      split; [apply sysinv2_sym; exact Hinv|]. cbn [fst snd f_ab f_ba w_ab w_ba chAB chBA set_ch_to epA epB tl]. auto.
+    + subst i. eexists. split; [reflexivity|]. cbn [fst snd chAB chBA]. split; [|cbn [fst snd chAB chBA tl]; auto]. split; [exact H2|auto].
+    + subst i. eexists. split; [cbn [fst snd pmon_step is_bad]; rewrite Ebad; reflexivity|].
+      cbn [fst snd chAB chBA]. split; [|cbn [fst snd chAB chBA tl]; auto]. split; [exact H2|auto].
+  - (* A polls *)
+    destruct (v_poll _ _ _ _ _ _ _ _ (gattA c) t H2) as [(Er & Eme)|(x & l & Er & Hdata & Hinv)];
+      destruct (step A (OOut (gattA c) t POLL_CAP)) as [i r]; cbn [fst snd] in *; subst r.
+    + subst i. eexists. split; [reflexivity|]. cbn [fst snd chAB chBA]. split; [|cbn [fst snd chAB chBA tl]; auto]. split; [exact H2|auto].
+    + eexists. split; [cbn [fst snd pmon_step is_bad]; rewrite Hdata; reflexivity|].
+      cbn [fst snd chAB chBA set_ch_to epA epB tl]. split; [|cbn [fst snd chAB chBA tl]; auto].
+      split; [exact Hinv|]. cbn [fst snd f_ab f_ba w_ab w_ba chAB chBA set_ch_to epA epB tl]. rewrite nlen_app, nlen_cons, nlen_nil. split; lia.
+  - (* B polls *)
+    destruct (v_poll _ _ _ _ _ _ _ _ (gattB c) t H2') as [(Er & Eme)|(x & l & Er & Hdata & Hinv)];
+      destruct (step B (OOut (gattB c) t POLL_CAP)) as [i r]; cbn [fst snd] in *; subst r.
+    + subst i. eexists. split; [reflexivity|]. cbn [fst snd chAB chBA]. split; [|cbn [fst snd chAB chBA tl]; auto]. split; [exact H2|auto].
+    + eexists. split; [cbn [fst snd pmon_step is_bad]; rewrite Hdata; reflexivity|].
+      cbn [fst snd chAB chBA set_ch_to epA epB tl]. split; [|cbn [fst snd chAB chBA tl]; auto].
+      split; [apply sysinv2_sym; exact Hinv|]. cbn [fst snd f_ab f_ba w_ab w_ba chAB chBA set_ch_to epA epB tl].
+      rewrite nlen_app, nlen_cons, nlen_nil. split; lia.
+  - (* a segment arrives at A *)
+    destruct cba as [|b cba'].
+    + cbn [fst snd]. eexists. split; [reflexivity|]. cbn [chAB chBA tl]. split; [|cbn [fst snd chAB chBA tl]; auto]. split; [exact H2|auto].
+    + destruct (v_deliver _ _ _ _ _ _ _ _ _ (gattA c) H2) as (Er & Hdata & Hinv).
+      destruct (step A (OIn (gattA c) (addrB c) b)) as [i r]; cbn [fst snd] in *; subst r.
+      eexists. split; [cbn [fst snd pmon_step is_bad]; rewrite Hdata; reflexivity|].
+      cbn [fst snd chAB chBA set_ch_to epA epB tl]. split; [|cbn [fst snd chAB chBA tl]; auto].
+      split; [exact Hinv|]. cbn [fst snd f_ab f_ba w_ab w_ba chAB chBA set_ch_to epA epB tl]. rewrite nlen_cons in Hfb. split; lia.
+  - (* a segment arrives at B *)
+    destruct cab as [|b cab'].
+    + cbn [fst snd]. eexists. split; [reflexivity|]. cbn [chAB chBA tl]. split; [|cbn [fst snd chAB chBA tl]; auto]. split; [exact H2|auto].
+    + destruct (v_deliver _ _ _ _ _ _ _ _ _ (gattB c) H2') as (Er & Hdata & Hinv).
+      destruct (step B (OIn (gattB c) (addrA c) b)) as [i r]; cbn [fst snd] in *; subst r.
+      eexists. split; [cbn [fst snd pmon_step is_bad]; rewrite Hdata; reflexivity|].
+      cbn [fst snd chAB chBA set_ch_to epA epB tl]. split; [|cbn [fst snd chAB chBA tl]; auto].
+      split; [apply sysinv2_sym; exact Hinv|]. cbn [fst snd f_ab f_ba w_ab w_ba chAB chBA set_ch_to epA epB tl]. rewrite nlen_cons in Hfa. split; lia.
+  - (* A fetches *)
+    destruct (v_fetch _ _ _ _ _ _ _ _ H2) as [(Er & Eme)|(x & q' & Er & Eq & Hinv)];
+      destruct (step A (ORecv RECV_CAP)) as [i r]; cbn [fst snd] in *; subst r.
+    + subst i. eexists. split; [reflexivity|]. cbn [fst snd chAB chBA]. split; [|cbn [fst snd chAB chBA tl]; auto]. split; [exact H2|auto].
+    + subst wba. eexists. split; [cbn [pmon_step is_bad w_ba]; rewrite bytes_eqb_refl; reflexivity|].
+      cbn [fst snd chAB chBA]. split; [|cbn [fst snd chAB chBA tl]; auto]. split; [exact Hinv|auto].
+  - (* B fetches *)
+    destruct (v_fetch _ _ _ _ _ _ _ _ H2') as [(Er & Eme)|(x & q' & Er & Eq & Hinv)];
+      destruct (step B (ORecv RECV_CAP)) as [i r]; cbn [fst snd] in *; subst r.
+    + subst i. eexists. split; [reflexivity|]. cbn [fst snd chAB chBA]. split; [|cbn [fst snd chAB chBA tl]; auto]. split; [exact H2|auto].
+    + subst wab. eexists. split; [cbn [pmon_step is_bad w_ab]; rewrite bytes_eqb_refl; reflexivity|].
+      cbn [fst snd chAB chBA]. split; [|cbn [fst snd chAB chBA tl]; auto]. split; [apply sysinv2_sym; exact Hinv|auto].
+Qed.
+
+Lemma map_tl {A B} (f : A -> B) l : map f (tl l) = tl (map f l).
+Proof. destruct l; reflexivity. Qed.
+
+Lemma sys_run_cons c s o ops :
+  sys_run c s (o :: ops) =
+  (fst (sys_run c (fst (sys_step c s o)) ops),
+   (snd (sys_step c s o), snap_of (epA (fst (sys_step c s o))), snap_of (epB (fst (sys_step c s o))))
+   :: snd (sys_run c (fst (sys_step c s o)) ops)).
+Proof.
+  cbn [sys_run]. destruct (sys_step c s o) as [s1 r]. cbn [fst snd].
+  destruct (sys_run c s1 ops) as [s2 rs]. reflexivity.
+Qed.
+
+Lemma pmon_run_inv c ops : forall s p,
+  sysinv c s p ->
+  pmon_run p (map is_data_seg (chAB s)) (map is_data_seg (chBA s)) ops (snd (sys_run c s ops)) = true.
+Proof.
+  induction ops as [|o ops IH]; intros s p Hinv; [reflexivity|].
+  rewrite sys_run_cons. cbn [snd pmon_run].
+  destruct (sys_step_inv c s p o Hinv) as (p' & Hstep & Hinv' & HcAB & HcBA & Hdata).
+  cbv zeta in *.
+  set (s' := fst (sys_step c s o)) in *. set (r := snd (sys_step c s o)) in *.
+  assert (Ehd : match o with
+                | SDeliver SB => match map is_data_seg (chAB s) with b :: _ => b | [] => false end
+                | SDeliver SA => match map is_data_seg (chBA s) with b :: _ => b | [] => false end
+                | _ => false
+                end =
+                match o with
+                | SDeliver SB => match chAB s with b :: _ => is_data_seg b | [] => false end
+                | SDeliver SA => match chBA s with b :: _ => is_data_seg b | [] => false end
+                | _ => false
+                end).
+  { destruct o as [x d|x t|x|x]; try reflexivity. destruct x; [destruct (chBA s)|destruct (chAB s)]; reflexivity. }
+  rewrite Ehd, Hstep.
+  destruct Hinv' as (H2 & Hfa & Hfb).
+  rewrite Hfa, Hfb.
+  rewrite (win_ok_inv _ _ _ _ _ _ _ _ H2).
+  rewrite (win_ok_inv _ _ _ _ _ _ _ _ (sysinv2_sym _ _ _ _ _ _ _ _ H2)).
+  cbn [andb].
+  assert (EA : match o, r with
+               | SPoll SA _, RBytes (x :: l) => map is_data_seg (chAB s) ++ [is_data_seg (x :: l)]
+               | SDeliver SB, _ => tl (map is_data_seg (chAB s))
+               | _, _ => map is_data_seg (chAB s)
+               end = map is_data_seg (chAB s')).
+  { rewrite HcAB. destruct o as [[]?|[]?|[]|[]]; destruct r as [|[|? ?]| | | |];
+      rewrite ?map_app, ?map_tl; reflexivity. }
+  assert (EB : match o, r with
+               | SPoll SB _, RBytes (x :: l) => map is_data_seg (chBA s) ++ [is_data_seg (x :: l)]
+               | SDeliver SA, _ => tl (map is_data_seg (chBA s))
+               | _, _ => map is_data_seg (chBA s)
+               end = map is_data_seg (chBA s')).
+  { rewrite HcBA. destruct o as [[]?|[]?|[]|[]]; destruct r as [|[|? ?]| | | |];
+      rewrite ?map_app, ?map_tl; reflexivity. }
+  rewrite EA, EB. apply IH. split; [exact H2|split; assumption].
+Qed.
+
+Lemma sys_run_inv c ops : forall s p,
+  sysinv c s p -> exists p', sysinv c (fst (sys_run c s ops)) p'.
+Proof.
+  induction ops as [|o ops IH]; intros s p Hinv; [exists p; exact Hinv|].
+  rewrite sys_run_cons. cbn [fst].
+  destruct (sys_step_inv c s p o Hinv) as (p' & _ & Hinv' & _). cbv zeta in Hinv'.
+  eapply IH. exact Hinv'.
+Qed.
+
+Lemma established_inv c ver : sysinv c (sys_established c ver m w) ps_init.
+Proof.
+  unfold sysinv, sys_established, ps_init, sysinv2.
+  cbn [epA epB chAB chBA w_ab w_ba f_ab f_ba].
+  assert (Hcap0 : blen (@nil N) <= RX_CAP) by (rewrite blen_nil; unfold RX_CAP; lia).
+  split; [|split; reflexivity].
+  split.
+  { unfold epinv, sess_ok, sw_ok, rw_ok.
+    cbn [sess send recv mtu hs_pending initiator swin slevel slast rlevel rack_level rmsgs rack_seq rbuf
+         address out_buf out_addr].
+    rewrite blen_nil. repeat split; try lia; try discriminate. }
+  split.
+  { unfold epinv, sess_ok, sw_ok, rw_ok.
+    cbn [sess send recv mtu hs_pending initiator swin slevel slast rlevel rack_level rmsgs rack_seq rbuf
+         address out_buf out_addr].
+    rewrite blen_nil. repeat split; try lia; try discriminate. }
+  split.
+  - exists [], [], []. cbn [sess send recv out_buf out_off swin slevel slast rlevel rack_level rmsgs rack_seq rbuf rrem].
+    unfold partial, rest_of, rem_of, acks_of. cbn [map concat app flat_map chan_seqs chan_content acks_chain].
+    rewrite !blen_nil, nlen_nil. replace (0 =? 0) with true by reflexivity.
+    repeat split; try lia; try constructor; try reflexivity.
+  - exists [], [], []. cbn [sess send recv out_buf out_off swin slevel slast rlevel rack_level rmsgs rack_seq rbuf rrem].
+    unfold partial, rest_of, rem_of, acks_of. cbn [map concat app flat_map chan_seqs chan_content acks_chain].
+    rewrite !blen_nil, nlen_nil. replace (0 =? 0) with true by reflexivity.
+    repeat split; try lia; try constructor; try reflexivity.
+Qed.
+
+(** ** the theorems of the two-party system *)
+
+Theorem pair_safe c ver ops :
+  mon_pair ops (snd (sys_run c (sys_established c ver m w) ops)) = true.
+Proof.
+  unfold mon_pair. apply (pmon_run_inv c ops (sys_established c ver m w) ps_init).
+  apply established_inv.
+Qed.
+
+Theorem window_respected c ver ops :
+  let s := fst (sys_run c (sys_established c ver m w) ops) in
+  nlen (chAB s) + rack_level (recv (sess (epB s))) + slevel (send (sess (epA s))) <= w /\
+  nlen (chAB s) <= rlevel (recv (sess (epB s))) /\
+  nlen (chBA s) + rack_level (recv (sess (epA s))) + slevel (send (sess (epB s))) <= w /\
+  nlen (chBA s) <= rlevel (recv (sess (epA s))).
+Proof.
+  cbv zeta.
+  destruct (sys_run_inv c ops _ _ (established_inv c ver)) as (p' & (HA & HB & Hd1 & Hd2) & _).
+  destruct Hd1 as (? & ? & ? & _ & _ & _ & _ & _ & _ & _ & _ & _ & _ & _ & _ & _ & Hwin1 & Hlev1 & _).
+  destruct Hd2 as (? & ? & ? & _ & _ & _ & _ & _ & _ & _ & _ & _ & _ & _ & _ & _ & Hwin2 & Hlev2 & _).
+  destruct HA as ((_ & (HsumA & _) & _) & _ & _ & HswA & _).
+  destruct HB as ((_ & (HsumB & _) & _) & _ & _ & HswB & _).
+  rewrite HswA in HsumA. rewrite HswB in HsumB. lia.
+Qed.
+
+(** while an ACK is due and the own send window is not exhausted, the next
+    poll sends it *)
+Lemma ack_enabled_view me peer co ci qm qp pa ma g t :
+  sysinv2 me peer co ci qm qp pa ma ->
+  is_ack_due (sess me) t = true -> 1 <= slevel (send (sess me)) ->
+  exists b h p,
+    snd (step me (OOut g t POLL_CAP)) = RBytes b /\ hdr_decode b = Ok (h, p) /\
+    get_ack h = Some (rack_seq (recv (sess me))) /\
+    rack_level (recv (sess (fst (step me (OOut g t POLL_CAP))))) = 0.
+Proof.
+  intros (Hme & Hpeer & Hd1 & Hd2) Hdue Hlev.
+  destruct me as [s oa buf off]. destruct Hme as (Hs & Hp & Hmt & Hsw & Ha & Hoa).
+  cbn [sess out_buf out_off out_addr] in *.
+  assert (Hloc : off <= blen buf /\ (blen buf <> 0 -> off < blen buf /\ blen buf <= MAX_TX)).
+  { destruct Hd1 as (? & ? & ? & _ & _ & _ & _ & _ & _ & _ & H8 & H9 & _). auto. }
+  destruct Hloc as (Hoff & Hbufc).
+  assert (Hrs : rack_seq (recv s) < 256) by (destruct Hs as (_ & (_ & _ & H3 & _) & _); exact H3).
+  assert (Hpa : is_some (rw_pending_ack (recv s)) = true).
+  { unfold is_ack_due in Hdue. apply andb_true_iff in Hdue. apply Hdue. }
+  destruct (pending_ack_msgs _ Hpa) as (Hm0 & Hrl).
+  assert (Epa : rw_pending_ack (recv s) = Some (rack_seq (recv s))).
+  { unfold rw_pending_ack. destruct (N.ltb_spec 0 (rack_level (recv s))); [|lia].
+    rewrite Hm0. reflexivity. }
+  assert (Hfull : sw_is_full (send s) (recv s) = false).
+  { unfold sw_is_full. destruct (N.eqb_spec (slevel (send s)) 0); [lia|].
+    destruct (N.eqb_spec (rack_level (recv s)) 0); [lia|]. rewrite andb_false_r. reflexivity. }
+  assert (Hrecv' : rack_level (recv (after_tx s)) = 0).
+  { unfold after_tx. cbn [recv]. rewrite Hpa. reflexivity. }
+  cbn [step].
+  rewrite (poll_est s oa buf off g t); [|split; assumption|assumption|rewrite Hmt; exact Hm| |assumption].
+  2:{ intro Hne. destruct (Hbufc Hne). rewrite Ha. auto. }
+  cbv zeta. rewrite Hfull, Hdue. cbn [negb andb]. rewrite !andb_true_r.
+  destruct (N.eqb_spec (blen buf) 0) as [E0|Hne]; cbn [negb fst snd sess].
+  - destruct (tx_ack_props m s Hpa Hrs (proj1 Hm)) as (Ep & Hwf & _ & _ & _ & _ & Eack & _).
+    eexists _, _, _. split; [reflexivity|]. split; [apply hdr_decode_encode; exact Hwf|].
+    split; [rewrite Eack; exact Epa|exact Hrecv'].
+  - destruct (Hbufc Hne) as (Hlt & Hmax).
+    assert (Hbuf1 : 1 <= blen buf <= MAX_TX) by lia.
+    pose proof (tx_data_props m s buf off Hmt Hm Hbuf1 Hlt Hrs) as Hprops. cbv zeta in Hprops.
+    destruct Hprops as (Hwf & _ & _ & _ & _ & _ & Eack & _).
+    eexists _, _, _. split; [reflexivity|]. split; [apply hdr_decode_encode; exact Hwf|].
+    split; [rewrite Eack; exact Epa|exact Hrecv'].
+Qed.
+
+Theorem ack_enabled c ver ops x t :
+  let s := fst (sys_run c (sys_established c ver m w) ops) in
+  is_ack_due (sess (ep s x)) t = true -> 1 <= slevel (send (sess (ep s x))) ->
+  exists b h p,
+    snd (step (ep s x) (OOut (gatt_of c x) t POLL_CAP)) = RBytes b /\ hdr_decode b = Ok (h, p) /\
+    get_ack h = Some (rack_seq (recv (sess (ep s x)))) /\
+    rack_level (recv (sess (fst (step (ep s x) (OOut (gatt_of c x) t POLL_CAP))))) = 0.
+Proof.
+  cbv zeta.
+  destruct (sys_run_inv c ops _ _ (established_inv c ver)) as (p' & H2 & _).
+  destruct x; cbn [ep gatt_of].
+  - eapply ack_enabled_view. exact H2.
+  - eapply ack_enabled_view. apply sysinv2_sym. exact H2.
+Qed.
+
+End Pair.
